@@ -1,5 +1,6 @@
 import Xo.Model.Assign
 import Xo.Lemmas.LayoutRT
+import Xo.Lemmas.Index
 /-! C11 — operations that cannot be honoured fail without side effects (property theorems only).
 The model's assignment returns either an error (and then there is no new memory: the buffer is what it was) or the new
 memory; these theorems say when each happens and that a success never leaves the slot's extent.  The ORDER of checks and
@@ -106,5 +107,87 @@ theorem C11_scalar_never_overruns (m : Mem) (addr w b : Nat) (hb : addr + w ≤ 
 example : ∃ m', rewriteStr (le 8 24 ++ [120, 121, 122] ++ zeros 13 ++ [9, 9]) 0 (.str [104, 105]) = .ok m' ∧
     readD .string m' 0 = .str [104, 105] ∧ m'.drop 24 = [9, 9] := ⟨_, rfl, by rfl, by rfl⟩
 example : rewriteStr (le 8 24 ++ zeros 16) 0 (.str (List.replicate 17 65)) = .error .value := by rfl
+
+/-! ### index refusals (`bound_check`, the definition `LayR.itemAddr` - the executable reader tied to the library - calls) -/
+
+/-- **an index outside the array's shape is refused - exactly then**: `bound_check` refuses iff the tuple has more coordinates
+than the array has axes or some coordinate lies outside `[0, dim)` of its axis -/
+theorem C11_index_refused_iff (shape : List Nat) (idx : List Int) :
+    boundCheck shape idx = false ↔
+      shape.length < idx.length ∨ ∃ (k : Nat) (i : Int) (s : Nat), idx[k]? = some i ∧ shape[k]? = some s ∧ (i < 0 ∨ (s : Int) ≤ i) := by
+  unfold boundCheck
+  simp only [Bool.and_eq_false_iff, Bool.not_eq_false', decide_eq_true_eq, List.any_eq_true, Bool.or_eq_true, ge_iff_le]
+  constructor
+  · rintro (h | ⟨p, hp, hc⟩)
+    · exact Or.inl h
+    · right
+      obtain ⟨k, hk, hpk⟩ := List.mem_iff_getElem.mp hp
+      have hk1 : k < idx.length := by simp only [List.length_zip] at hk; omega
+      have hk2 : k < shape.length := by simp only [List.length_zip] at hk; omega
+      refine ⟨k, idx[k], shape[k], List.getElem?_eq_getElem hk1, List.getElem?_eq_getElem hk2, ?_⟩
+      rw [List.getElem_zip] at hpk
+      subst hpk
+      exact hc
+  · rintro (h | ⟨k, i, s, h1, h2, hc⟩)
+    · exact Or.inl h
+    · right
+      obtain ⟨hk1, e1⟩ := List.getElem?_eq_some_iff.mp h1
+      obtain ⟨hk2, e2⟩ := List.getElem?_eq_some_iff.mp h2
+      refine ⟨(i, s), ?_, hc⟩
+      apply List.mem_iff_getElem.mpr
+      refine ⟨k, by simp only [List.length_zip]; omega, ?_⟩
+      rw [List.getElem_zip, e1, e2]
+
+/-- a tuple with one coordinate per axis is accepted iff it is a valid index (every coordinate in `[0, dim)`) -/
+theorem C11_full_index_accepted_iff (shape idx : List Nat) (hl : idx.length = shape.length) :
+    boundCheck shape (idx.map Int.ofNat) = true ↔ ValidIdx shape idx := by
+  rw [← Bool.not_eq_false, C11_index_refused_iff]
+  constructor
+  · intro h
+    refine ⟨hl, fun ax hax => ?_⟩
+    apply Classical.byContradiction
+    intro hc
+    apply h
+    right
+    have h1 : ax < idx.length := by omega
+    refine ⟨ax, (idx[ax] : Int), shape[ax], by simp [List.getElem?_eq_getElem h1], List.getElem?_eq_getElem hax, Or.inr ?_⟩
+    have : ¬ idx[ax] < shape[ax] := by
+      simpa [List.getD_eq_getElem?_getD, List.getElem?_eq_getElem h1, List.getElem?_eq_getElem hax] using hc
+    omega
+  · rintro ⟨_, hv⟩ (h | ⟨k, i, s, h1, h2, hc⟩)
+    · simp only [List.length_map] at h; omega
+    · obtain ⟨hk2, e2⟩ := List.getElem?_eq_some_iff.mp h2
+      have hk1 : k < idx.length := by omega
+      have := hv k hk2
+      simp only [List.getD_eq_getElem?_getD, List.getElem?_eq_getElem hk1, List.getElem?_eq_getElem hk2, Option.getD_some] at this
+      simp only [List.getElem?_map, List.getElem?_eq_getElem hk1, Option.map_some, Option.some.injEq] at h1
+      subst h1 e2
+      rcases hc with hc | hc
+      · exact absurd hc (by simp)
+      · have : (shape[k] : Int) ≤ (idx[k] : Int) := hc
+        omega
+
+/-- **an accepted index never reaches beyond the array**: for an array of fixed-size items (any shape, any axis order) the item
+address the view computes for an accepted full index - header + `Σ idx[ax] * stride[ax]` - leaves room for the whole item inside
+the array's own extent, so neither the read nor the write of that item can touch a neighbour -/
+theorem C11_accepted_index_inside (it : Ty) (shape : List (Option Nat)) (order sh : List Nat) (items : List Val)
+    (hc : Conf (.array it shape order) (.arr sh items)) (hst : (ainfo it shape).staticType = true)
+    (hperm : order.Perm (List.range sh.length)) (idx : List Nat) (hl : idx.length = sh.length)
+    (hacc : boundCheck sh (idx.map Int.ofNat) = true) :
+    (ainfo it shape).dataOff + dot idx (getStrides sh order (ainfo it shape).unit) + (ainfo it shape).unit
+      ≤ vsize (.array it shape order) (.arr sh items) := by
+  have hv := (C11_full_index_accepted_iff sh idx hl).mp hacc
+  have hlt := mposL_lt sh order idx hperm hv
+  rw [dot_getStrides sh order idx _ hperm hl]
+  obtain ⟨_, hlen, _, _⟩ := hc
+  simp only [vsize, hst, ↓reduceIte]
+  have hs := slot_ge ((ainfo it shape).dataOff + (ainfo it shape).unit * items.length)
+  have : (ainfo it shape).unit * mposL sh order idx + (ainfo it shape).unit ≤ (ainfo it shape).unit * items.length := by
+    rw [hlen, ← Nat.mul_succ]
+    exact Nat.mul_le_mul_left _ hlt
+  omega
+
+example : boundCheck [2, 3] [1, 2] = true ∧ boundCheck [2, 3] [1, 2, 5] = false ∧ boundCheck [2, 3] [-1, 0] = false ∧
+    boundCheck [2, 3] [0, 3] = false ∧ boundCheck [2, 3] [1] = true := by decide
 
 end Lay
